@@ -195,6 +195,13 @@ func (st *State) genCandidates(li *loopInfo, ws *writeSet) []candidate {
 				t, ok := s.cellTerm(v.c)
 				return Eq(t, v.entry), ok
 			})
+			if st.entry != nil {
+				ea := st.entry.alloc
+				add("fresh("+v.name+")", func(s *State) (Term, bool) {
+					t, ok := s.cellTerm(v.c)
+					return Or(Gt(SlRef(t), ea), Eq(SlRef(t), IntLit(0))), ok
+				})
+			}
 		} else {
 			add("same("+v.name+")", func(s *State) (Term, bool) {
 				t, ok := s.cellTerm(v.c)
